@@ -129,8 +129,12 @@ class InitMethod(MethodDescriptor):
                     _inplace=True,
                 )
 
-            if instance_metadata.post_init:
-                instance_metadata.post_init(self)
+            # Look `__post_init__` up on the instance's class (as Python would),
+            # so that hooks defined or overridden in subclasses that are not
+            # themselves decorated are honoured.
+            post_init = getattr(type(self), "__post_init__", None)
+            if post_init:
+                post_init(self)
 
             self.__delattr__(
                 "__spec_class_initializing__", force=True, skip_invalidation=True
